@@ -78,6 +78,18 @@ CHECKS = {
    design="4 C01",
    note=COMMON_NOTE + "Partial: node-level theorem + byte-level predicate evaluated on implementation output; cbor2 dumps/loads modelled as enc/dec on the plain subset.",
    technique="Lean 4 proof (loop invariant over digest updates, for all hash functions) + byte-exact model/implementation correspondence + executable byte-level spec"),
+ "C02": dict(
+   text="Decomposed. Lean: C02_vocabulary (every registered name has its registered integer in the running code's tables: kernel evaluation over the re-extracted schema), "
+        "C02_wrap_members / C02_wrap_fields (bstr .cbor at exactly the members / tuple fields the CDDL prescribes, 40 + 14 rows checked by the kernel against the extracted class "
+        "graph), C02_command_sequences_flat (command sequences group by two), and about the encoder for all inputs: C02_wrapped_once (one byte-string layer around the content's "
+        "encoding), C02_envelope_is_enc + C02_shortest (the envelope is enc of one value, which the strict definite-length shortest-form reader accepts and returns), "
+        "C02_list_order, C02_flat_pairs (code1,arg1,code2,arg2,... in description order), C02_map_order (map pairs in description order, nothing sorted, dropped or duplicated). "
+        "Tie and decision: a reference encoder written from the CDDL by the verifier (harness/ref_encode.py, no suit_generator import) is compared byte-for-byte with the real tool "
+        "and with the model on every generated description; the strict reader runs on the real tool's bytes. Partial: no theorem that the model's whole encoder equals the "
+        "reference encoder; constructs outside the reference's scope (delegation chains, inline text) are excluded and counted.",
+   design="4 C02",
+   note=COMMON_NOTE + "Known finding F8 (CWT payload encoded without the CWT integer keys / bstr claim layout the property's cited specification prescribes).",
+   technique="Lean 4 proof (encoder lemmas for all inputs, wrap tables by kernel evaluation on the generated schema) + three-way byte comparison tool / model / independent reference encoder"),
  "C05": dict(
    text="Lean theorems, each for all file systems and all hash functions: C05_file_digest ({file:p} -> hash under the named algorithm of exactly fs p), C05_file_direct_digest, "
         "C05_file_missing (error, no default), C05_size_file (= length of fs p), C05_size_envelope (= length of the child created on its own), C05_payload_path, "
